@@ -49,6 +49,8 @@ pub fn universe() -> Universe {
             vec![v(vec![Float], false), v(vec![Str], false), v(vec![Struct(0)], false)],
             // 6: three named fields with a void in the middle
             vec![v(vec![Bool, Void, Int], true), v(vec![Enum(1)], false)],
+            // 7: several declared fields of which at most one is not void (D46)
+            vec![v(vec![Bool, Void], false), v(vec![Void, Void], true), v(vec![Void, Int], true), v(vec![], false)],
         ],
         structs: vec![
             vec![Bool, Bool],
@@ -74,6 +76,12 @@ pub fn scrutinee_types() -> Vec<Ty> {
         t(vec![Bool, Float, Str]), t(vec![Enum(6), Bool]), t(vec![Struct(3), Bool]), t(vec![Enum(5), Enum(0)]),
         t(vec![Bool, Bool, Bool]), t(vec![Int, Int]),
     ]
+}
+
+/// scrutinee types whose values need the repaired variant constructor (D46); static checks use
+/// them always, run-time checks once the implementation passes the probe
+pub fn scrutinee_types_d46() -> Vec<Ty> {
+    vec![Ty::Enum(7), Ty::Tuple(vec![Ty::Enum(7), Ty::Bool])]
 }
 
 pub const INTS: [i64; 3] = [0, 1, 2];
@@ -934,7 +942,8 @@ pub fn gen_cases(u: &Universe, rng: &mut Rng, quick: bool) -> Vec<MatchCase> {
         }
     }
     // --- random
-    let tys = scrutinee_types();
+    let mut tys = scrutinee_types();
+    tys.extend(scrutinee_types_d46());
     let n = if quick { 1500 } else { 40000 };
     for _ in 0..n {
         let ty = rng.pick(&tys).clone();
